@@ -69,6 +69,66 @@ Theorem C12_atomic : forall rid rc s nx,
 Proof. exact gac_atomic. Qed.
 Print Assumptions C12_atomic.
 
+(* ---- the thin operations (no concurrent change during the call) ---- *)
+(* get_sel_entries_count = number of entries in the log; one request; nothing changes *)
+Theorem C12_count : forall s, somes (sd_plan s) = [] -> N.of_nat (length (sd_log s)) < 65536 ->
+  exists s' t, run get_sel_entries_count sel_dev s [] = (Ok (N.of_nat (length (sd_log s))), s', t)
+    /\ length t = 1%nat /\ quiet s s'.
+Proof. exact count_exact. Qed.
+Print Assumptions C12_count.
+
+(* get_sel_reservation_id returns the reservation the device now holds valid; log untouched *)
+Theorem C12_reserve : forall s, somes (sd_plan s) = [] ->
+  let R := sd_resv s mod 65535 + 1 in
+  exists s', run get_sel_reservation_id sel_dev s [] = (Ok R, s', [(reserve_req, RBytes (0 :: le_bytes 2 R))])
+    /\ 1 <= R < 65536 /\ sd_valid s' = true /\ sd_resv s' = R
+    /\ sd_log s' = sd_log s /\ sd_deleted s' = sd_deleted s /\ sd_limit s' = sd_limit s.
+Proof. exact reserve_exact. Qed.
+Print Assumptions C12_reserve.
+
+(* get_sel_entry under the current reservation: the stored record and its successor's id;
+   the replies' record bytes add up to the record; nothing changes *)
+Theorem C12_get_entry : forall s rid resv rc nx,
+  somes (sd_plan s) = [] -> sd_valid s = true -> sd_resv s = resv -> 1 <= resv -> resv < 65536 ->
+  rid < 65536 -> lookup (sd_log s) rid = Some (rc, nx) -> nx < 65536 -> rec_ok rc ->
+  limit_ok (sd_limit s) ->
+  exists s' t, run (get_sel_entry 40 rid resv) sel_dev s [] = (Ok (entry_of rc, nx), s', t)
+    /\ se_data (entry_of rc) = rc /\ got t = rc /\ quiet s s'.
+Proof. exact get_entry_exact. Qed.
+Print Assumptions C12_get_entry.
+
+(* delete_sel_entry under the current reservation removes exactly the named entry *)
+Theorem C12_delete : forall s rid resv rc nx,
+  somes (sd_plan s) = [] -> sd_valid s = true -> sd_resv s = resv -> resv < 65536 -> rid < 65536 ->
+  lookup (sd_log s) rid = Some (rc, nx) -> rec_id rc < 65536 ->
+  exists s', run (delete_sel_entry rid resv) sel_dev s []
+             = (Ok (rec_id rc), s', [(delete_req resv rid, RBytes (0 :: le_bytes 2 (rec_id rc)))])
+    /\ sd_log s' = remove_rec (sd_log s) rid /\ sd_deleted s' = sd_deleted s ++ [rc]
+    /\ sd_valid s' = false.
+Proof. exact delete_exact. Qed.
+Print Assumptions C12_delete.
+
+(* ... and without it (cancelled, or another id - e.g. the default 0) nothing is deleted *)
+Theorem C12_delete_refused : forall s rid resv,
+  somes (sd_plan s) = [] -> resv < 65536 -> rid < 65536 ->
+  (sd_valid s = false \/ resv <> sd_resv s) ->
+  exists s', run (delete_sel_entry rid resv) sel_dev s []
+             = (Err (CCError 0xc5), s', [(delete_req resv rid, RBytes [0xc5])])
+    /\ quiet s s'.
+Proof. exact delete_refused. Qed.
+Print Assumptions C12_delete_refused.
+
+(* clear_sel (helper.clear_repository_helper over get_sel_reservation_id / _clear_sel):
+   the whole log is erased, deletion record and limit untouched; Reserve -> R, Clear(0xAA)
+   under R, Clear(0x00) under R.  Any retry budget >= 2. *)
+Theorem C12_clear : forall s retry, somes (sd_plan s) = [] -> (2 <= retry)%nat ->
+  exists s' t, run (clear_sel retry) sel_dev s [] = (Ok tt, s', t)
+    /\ sd_log s' = [] /\ sd_deleted s' = sd_deleted s /\ sd_limit s' = sd_limit s
+    /\ exists R, t = [(reserve_req, RBytes (0 :: le_bytes 2 R)); (clear_req R 0xaa, RBytes [0; 1]);
+                      (clear_req R 0, RBytes [0; 1])].
+Proof. exact clear_sel_exact. Qed.
+Print Assumptions C12_clear.
+
 (* non-vacuity: three records, limit 5, the adversary appends a record before the 4th
    and just before the Delete of the second round (22nd request): the hypotheses hold and the model goes through both
    cancellations (3 reservations) and deletes record 0x0002 *)
